@@ -2421,6 +2421,29 @@ impl Stream for C07 {
         let mut push = |labels: Vec<String>, text: String| {
             cases.push(Case { kind: "oracle", labels, request: node("c07", vec![st(text)]) });
         };
+        // (a0) the operand-type grid: every binary / logical / ternary construct over every PAIR of operand types (well- and
+        // ill-typed alike, each operand a property read so that nothing is folded), bound to properties of several types and
+        // used in a handler: whatever the verdict, no panic
+        {
+            let operands: [(&str, &str); 8] = [
+                ("bool", "check.checked"), ("int", "spin.value"), ("double", "dspin.value"), ("string", "edit.text"),
+                ("enum", "lbl.textFormat"), ("flags", "lbl.alignment"), ("pointer", "lbl.buddy"), ("list", "combo.model"),
+            ];
+            let ops = ["+", "-", "*", "/", "%", "<<", ">>", "&", "|", "^", "<", "<=", "==", "!=", "&&", "||"];
+            let head = "import qmluic.QtWidgets\nQWidget {\n    QCheckBox { id: check }\n    QSpinBox { id: spin }\n    QDoubleSpinBox { id: dspin }\n    QLineEdit { id: edit }\n    QLabel { id: lbl }\n    QComboBox { id: combo }\n";
+            for (ln, l) in &operands {
+                for (rn, r) in &operands {
+                    let mut body = String::from(head);
+                    for (k, op) in ops.iter().enumerate() {
+                        let target = ["enabled", "toolTip", "minimumWidth", "windowOpacity"][k % 4];
+                        body.push_str(&format!("    QWidget {{ {target}: {l} {op} {r} }}\n"));
+                    }
+                    body.push_str(&format!("    QWidget {{ enabled: {l} ? {r} : {l} }}\n    QWidget {{ toolTip: check.checked ? {l} : {r} }}\n"));
+                    body.push_str(&format!("    QPushButton {{ onClicked: {{ let v = {l}; if ({l} && {r}) {{ console.log({l} || {r}, !{r}, -{l}, ~{r}) }} }} }}\n}}\n"));
+                    push(vec!["operand-grid".into(), format!("left:{ln}"), format!("right:{rn}")], body);
+                }
+            }
+        }
         // (a) well-formed generated documents, clean and with planted errors
         let mut rich: Vec<String> = vec![];
         for k in 0..300 * scale {
